@@ -528,6 +528,16 @@ def main():
     dbfiles, shipped, sources = parse_db(bases, {u["id"] for u in units.values()})
 
     BASE_CODE = 4294967296
+    doc_names_early = []
+    dt0 = os.path.join(REPO, "tools", "gen", "data.toml")
+    if os.path.exists(dt0):
+        txt0 = open(dt0, encoding="utf-8").read()
+        for blk in re.split(r"\n(?=\[\[)", txt0):
+            m0 = re.match(r"\[\[(\w+)\]\]", blk.strip())
+            nm0 = re.search(r"names = \[(.*?)\]", blk, re.S)
+            var0 = re.search(r'variant = "(\w+)"', blk)
+            if m0 and nm0 and var0:
+                doc_names_early.append({"section": m0.group(1), "variant": var0.group(1), "names": re.findall(r'"(.*?)"', nm0.group(1))})
 
     def ukey(x):
         return units[x[1]]["id"] if x[0] == "D" else BASE_CODE + bases.index(x[1])
@@ -614,7 +624,7 @@ def main():
             rows = []
             for n in order:
                 edges = "[" + ";".join("(%d%%N, %d%%nat)" % (b, index[c]) for b, c in sorted(nodes[n].items())) + "]"
-                rows.append("{| edges := %s; at_end := %s; at_other := %s |}" % (edges, outc(table.get((n, "end"))), outc(table.get((n, "other")))))
+                rows.append("{| npath := %s; edges := %s; at_end := %s; at_other := %s |}" % (bs(n), edges, outc(table.get((n, "end"))), outc(table.get((n, "other")))))
             o.append("(* byte trie of the `%s` lexer: %d tokens, %d nodes; node 0 is the root. The outcome of one lexer step that stops at a\n   node is recorded as observed on the real generated lexer (followed by end of input / by a byte on no edge). *)\n" % (name, len(toks), len(order)))
             o.append("Definition %s_trie : list node := [\n  " % name + ";\n  ".join(rows) + "].\n\n")
             o.append("(* the token table of the `%s` lexer: spelling (bytes) and what parse() does with the token *)\n" % name)
@@ -630,6 +640,17 @@ def main():
     import vlib
     o.append("Definition op_table : list (N * nat * N * bool) := [" + ";".join("(%d%%N, %d%%nat, %d%%N, %s)" % (vlib.KIND_CODE[t], p, vlib.KIND_CODE[k], "true" if u else "false") for t, p, k, u in ops) + "].\n\n")
     o.append("(* src/eval.rs builtin(): function names *)\nDefinition builtin_table : list (list N * list N) := [" + ";".join("(%s, %s)" % (zs(a), zs(b)) for a, b in builtins) + "].\n\n")
+    o.append("(* tools/gen/data.toml: the documented names of every unit, with the unit they are documented to denote and its prefix bias *)\n")
+    docrows = []
+    for dn in doc_names_early:
+        if dn["section"] != "units":
+            continue
+        arm = arms2.get(dn["variant"])
+        if not arm or arm[0] != "unit":
+            raise Fail("data.toml: unit variant %s has no arm in parse()" % dn["variant"])
+        for nm in dn["names"]:
+            docrows.append("(%s, %d%%N, (%d)) (* %s *)" % (bs(nm.encode()), ukey(arm[1]), arm[2], nm))
+    o.append("Definition documented_names : list (list N * N * Z) := [\n  " + ";\n  ".join(docrows) + "].\n\n")
     o.append("(* src/bin/any.rs: display spec of the command line *)\nDefinition cli_limit : nat := %d%%nat.\nDefinition cli_exponent_limit : nat := %d%%nat.\nDefinition cli_show_continuation : bool := %s.\n" % (limit, el, "true" if cont else "false"))
     write_if_changed(os.path.join(GEN, "Tables.v"), "".join(o))
 
